@@ -46,6 +46,13 @@ fn main() {
                 eprintln!("unknown property {id}");
                 std::process::exit(2)
             };
+            if id == "C20" {
+                // The artifact accessors convert times through the process's LOCAL time zone, and UTC is the one zone in
+                // which a confusion of local and universal time cannot show. The zone is part of the generated case:
+                // chosen from VERIF_SEED before any thread exists (POSIX TZ strings, no tz database needed), recorded in
+                // replay files. A half-hour offset west and a whole-hour offset east of Greenwich.
+                std::env::set_var("TZ", if seed % 2 == 0 { "NST3:30" } else { "JST-9" });
+            }
             driver::start_watchdog(match tier {
                 Tier::Quick => 900,
                 Tier::Thorough => 7200,
